@@ -7,7 +7,10 @@ import (
 	"fmt"
 	"net/http/httptest"
 	"sort"
+	"strconv"
 	"strings"
+	"sync"
+	"sync/atomic"
 	"time"
 
 	"github.com/metal-toolbox/audito-maldito/internal/health"
@@ -43,6 +46,8 @@ func runHealth(ops []string) string {
 			h.OnReady(unhex(op[6:]))
 		case op == "get":
 			out = append(out, renderReadyz(h))
+		case strings.HasPrefix(op, "ring:"):
+			out = append(out, runRing(op))
 		case op == "isready":
 			out = append(out, fmt.Sprintf("R:%v", h.IsReady()))
 		case op == "wait" || op == "waitlate":
@@ -92,6 +97,71 @@ func runHealth(ops []string) string {
 		return "none"
 	}
 	return strings.Join(out, ";")
+}
+
+// ring:<n>:<probers>:<ms> — a token ring of registrations on a fresh Health (`C18R.ring_never_ready`): every component is
+// registered, all but the first are marked ready, then for i = 0, 1, … component i+1 is registered again BEFORE component i
+// is marked ready. Some component is pending in every state, so every probe — IsReady and the HTTP handler, free-running on
+// their own Go routines — must answer "not ready". Output: the number of probes that answered "ready".
+func runRing(op string) string {
+	f := strings.Split(op, ":")
+	if len(f) != 4 {
+		return "G:!bad"
+	}
+	n, _ := strconv.Atoi(f[1])
+	probers, _ := strconv.Atoi(f[2])
+	ms, _ := strconv.Atoi(f[3])
+	if n < 2 || probers < 1 {
+		return "G:!bad"
+	}
+	h := health.NewHealth()
+	names := make([]string, n)
+	for i := range names {
+		names[i] = fmt.Sprintf("r%d", i)
+		h.AddReadiness(names[i])
+	}
+	for _, c := range names[1:] {
+		h.OnReady(c)
+	}
+	var readySeen, probes int64
+	stop := make(chan struct{})
+	var wg sync.WaitGroup
+	for p := 0; p < probers; p++ {
+		wg.Add(1)
+		go func(p int) {
+			defer wg.Done()
+			for {
+				select {
+				case <-stop:
+					return
+				default:
+				}
+				ready := false
+				if p%2 == 0 {
+					ready = h.IsReady()
+				} else {
+					rec := httptest.NewRecorder()
+					h.ReadyzHandler().ServeHTTP(rec, httptest.NewRequest("GET", "/readyz", nil))
+					ready = rec.Code == 200
+				}
+				atomic.AddInt64(&probes, 1)
+				if ready {
+					atomic.AddInt64(&readySeen, 1)
+				}
+			}
+		}(p)
+	}
+	deadline := time.Now().Add(time.Duration(ms) * time.Millisecond)
+	for i := 0; time.Now().Before(deadline) && atomic.LoadInt64(&readySeen) == 0; i++ {
+		h.AddReadiness(names[(i+1)%n])
+		h.OnReady(names[i%n])
+	}
+	close(stop)
+	wg.Wait()
+	if atomic.LoadInt64(&probes) == 0 {
+		return "G:!noprobes"
+	}
+	return fmt.Sprintf("G:%d", atomic.LoadInt64(&readySeen))
 }
 
 func init() {
